@@ -1879,6 +1879,10 @@ class unyt_array(np.ndarray):
             # Unary ufuncs
             inp = inputs[0]
             u = getattr(inp, "units", None)
+            if u is None:
+                # a bare input: we were dispatched through ``out=`` (e.g. the
+                # reductions NumPy runs on behalf of np.var(..., out=q))
+                u = Unit(registry=self.units.registry)
             if u.dimensions is angle and ufunc in trigonometric_operators:
                 # ensure np.sin(90*degrees) works as expected
                 inp = inp.in_units("radian").v
